@@ -537,6 +537,52 @@ class Transformer(ast.NodeTransformer):
         return node
 
 
+COMP_AS_LOOP: set = set()  # "relpath::qual" keys whose `name = [E for .. in it]` statements are read as loops
+
+
+class _CompToLoop(ast.NodeTransformer):
+    """`x = [E for t in it]`  ->  `x = []` ; `for t in it: x.append(E)`.
+
+    A comprehension whose element has effects (a call that writes) is a loop; read as one, its body is
+    verified for an arbitrary iteration with the loop machinery (invariant, frame) instead of being a lazily
+    evaluated mapped sequence.  The loop variable leaks into the function scope, which the rewrite refuses
+    when that name is used elsewhere in the function."""
+
+    def __init__(self, fn_node):
+        self.names = [n.id for n in ast.walk(fn_node) if isinstance(n, ast.Name)]
+        self.failed = []
+
+    def visit_Assign(self, node):
+        v = node.value
+        if not (isinstance(v, ast.ListComp) and len(node.targets) == 1 and isinstance(node.targets[0], ast.Name)
+                and len(v.generators) == 1 and not v.generators[0].is_async):
+            return node
+        gen = v.generators[0]
+        tnames = [n.id for n in ast.walk(gen.target) if isinstance(n, ast.Name)]
+        # the comprehension's variables are its own: rename them so that the loop does not rebind a
+        # function-level name (the iterable is evaluated in the enclosing scope and keeps its names)
+        self.count = getattr(self, "count", 0) + 1
+        for part in [gen.target, v.elt] + list(gen.ifs):
+            for n in ast.walk(part):
+                if isinstance(n, ast.Name) and n.id in tnames:
+                    n.id = f"comp{self.count}_{n.id}"
+        x = node.targets[0].id
+        # the iterable is evaluated before the target is rebound (`xs = [.. for x in xs ..]`)
+        itname = f"comp{self.count}_iter"
+        save = ast.Assign(targets=[ast.Name(id=itname, ctx=ast.Store())], value=gen.iter)
+        init = ast.Assign(targets=[ast.Name(id=x, ctx=ast.Store())], value=ast.List(elts=[], ctx=ast.Load()))
+        body = ast.Expr(ast.Call(func=ast.Attribute(value=ast.Name(id=x, ctx=ast.Load()), attr="append", ctx=ast.Load()),
+                                 args=[v.elt], keywords=[]))
+        if gen.ifs:
+            test = gen.ifs[0] if len(gen.ifs) == 1 else ast.BoolOp(op=ast.And(), values=list(gen.ifs))
+            body = ast.If(test=test, body=[body], orelse=[])
+        loop = ast.For(target=gen.target, iter=ast.Name(id=itname, ctx=ast.Load()), body=[body], orelse=[])
+        for n in ast.walk(loop.target):
+            if isinstance(n, (ast.Name, ast.Tuple, ast.List)):
+                n.ctx = ast.Store()
+        return [ast.copy_location(save, node), ast.copy_location(init, node), ast.copy_location(loop, node)]
+
+
 def transformed_function(relpath: str, qual: str, while_specs=(), extra_havoc=None):
     """Return (code_factory, info).  code_factory(globals) -> python function object."""
     src, node = find_def(relpath, qual)
@@ -545,8 +591,15 @@ def transformed_function(relpath: str, qual: str, while_specs=(), extra_havoc=No
     import copy
 
     node = copy.deepcopy(node)
+    pre_failed = []
+    if f"{relpath}::{qual}" in COMP_AS_LOOP:
+        pre = _CompToLoop(node)
+        node = pre.visit(node)
+        ast.fix_missing_locations(node)
+        pre_failed = pre.failed
     tr = Transformer(while_specs, extra_havoc)
     new = tr.visit(node)
+    tr.unsupported.extend(pre_failed)
     mod = ast.Module(body=[new], type_ignores=[])
     ast.fix_missing_locations(mod)
     try:
